@@ -27,12 +27,12 @@ Definition same_set (a b : list N) : bool := subset a b && subset b a.
 Definition nonempty {A} (l : list A) : bool := match l with [] => false | _ => true end.
 
 (* Spec verdict of a rule: does the document violate it?  For the overlap rule this is the
-   brute-force layer L1; for NoFragmentCycles "some fragment reaches itself"; for the other
+   brute-force layer L1; for NoFragmentCycles "some fragment reaches itself" (the certified test ranked_b); for the other
    rules the model's verdict (tied to the declarative predicates by the C02_rule_iff theorems). *)
 Definition spec_violates (r : N) (S : schema) (W : wdoc) : bool :=
   match r with
   | 13 => match L1o S (erase W) (fuel_for W) with Some true => false | _ => true end
-  | 9 => negb (acyclic_b (erase W))
+  | 9 => negb (ranked_b (erase W))   (* C02_cycles_oracle *)
   | _ => nonempty (run_rule r S W)
   end.
 
